@@ -68,6 +68,32 @@ fn header(ctx: &mut Ctx) -> coset::Header {
     }
 }
 
+/// The same signer as a caller would hold it after *decoding* it: the protected header keeps
+/// received bytes, here in a non-canonical encoding of the same content.
+fn as_received(ctx: &mut Ctx, s: coset::CoseSignature) -> coset::CoseSignature {
+    use coset::CborSerializable;
+    let mut n = capi::Notes(vec![]);
+    let mh = capi::v_header(&s.protected.header, &mut n);
+    let pb = gen::prot_bytes(&mut ctx.rng, &mh, 255);
+    let unprot = match guard(|| s.unprotected.clone().to_vec()) {
+        Ok(Ok(u)) => u,
+        _ => return s,
+    };
+    let mut wire = vec![0x83];
+    crate::rcbor::put_head(&mut wire, 2, pb.len() as u64, &mut crate::rcbor::Style::canonical());
+    wire.extend_from_slice(&pb);
+    wire.extend_from_slice(&unprot);
+    crate::rcbor::put_head(&mut wire, 2, s.signature.len() as u64, &mut crate::rcbor::Style::canonical());
+    wire.extend_from_slice(&s.signature);
+    match guard(|| coset::CoseSignature::from_slice(&wire)) {
+        Ok(Ok(x)) => {
+            ctx.count("signer-template-as-received");
+            x
+        }
+        _ => s,
+    }
+}
+
 fn small(ctx: &mut Ctx) -> Vec<u8> {
     match ctx.rng.below(6) {
         0 => vec![],
@@ -420,7 +446,15 @@ fn sign_history(ctx: &mut Ctx) {
     let mut b = coset::CoseSignBuilder::new();
     let mut payload: Option<Vec<u8>> = None;
     let mut recs: Vec<Option<Rec>> = Vec::new();
-    let mk_sig = |ctx: &mut Ctx| coset::CoseSignatureBuilder::new().protected(header(ctx)).unprotected(header(ctx)).signature(small(ctx)).build();
+    let mk_sig = |ctx: &mut Ctx| {
+        let s = coset::CoseSignatureBuilder::new().protected(header(ctx)).unprotected(header(ctx)).signature(small(ctx)).build();
+        // a third of the signer templates are held as a decoder would have produced them
+        if ctx.rng.chance(1, 3) {
+            as_received(ctx, s)
+        } else {
+            s
+        }
+    };
     for _ in 0..ctx.rng.below(5) {
         match ctx.rng.below(4) {
             0 => {
@@ -1138,7 +1172,7 @@ impl Check for C06 {
         }
     }
     fn rule(&self) -> String {
-        "histories: for each of the seven builders a random program - phase A: 0-4 setters in any order and multiplicity (protected, unprotected, payload / ciphertext, signature / tag, add_signature / add_recipient); phase B: 1-4 create/add helpers (infallible and fallible, embedded and detached, every recipient context) interleaved with setters that do not touch protected headers or payload (signature/tag/ciphertext overwrites are followed by the model); fallible creators fail with probability 1/4 with a unique error; then build, encode (tagged or untagged), decode and verify/decrypt with recording closures, and with each single perturbation (AAD, payload / detached payload, body protected header, that signer's protected header, recipient context). Every produced signature/tag/ciphertext is unique (case id + counter), so the value a verifier observes identifies its creation. Oracle: verifier receives the stored value and exactly the bytes the creator received; the closure's result is returned unchanged; a failing creator yields its own error; every perturbation changes the bytes. Non-trivial = distinct verified structures.".into()
+        "histories: for each of the seven builders a random program - phase A: 0-4 setters in any order and multiplicity (protected, unprotected, payload / ciphertext, signature / tag, add_signature / add_recipient; a third of the signer templates are held as decoding would have produced them, i.e. with received protected bytes in a non-canonical encoding); phase B: 1-4 create/add helpers (infallible and fallible, embedded and detached, every recipient context) interleaved with setters that do not touch protected headers or payload (signature/tag/ciphertext overwrites are followed by the model); fallible creators fail with probability 1/4 with a unique error; then build, encode (tagged or untagged), decode and verify/decrypt with recording closures, and with each single perturbation (AAD, payload / detached payload, body protected header, that signer's protected header, recipient context). Every produced signature/tag/ciphertext is unique (case id + counter), so the value a verifier observes identifies its creation. Oracle: verifier receives the stored value and exactly the bytes the creator received; the closure's result is returned unchanged; a failing creator yields its own error; every perturbation changes the bytes. Non-trivial = distinct verified structures.".into()
     }
     fn assumptions(&self) -> Vec<String> {
         vec!["builder programs respect the property's precondition: protected headers and payload are not changed after a create helper ran".into()]
